@@ -351,6 +351,8 @@ def run(prog, tier):
                         if mk is not None and cv is not None and int(cv) == 0 and (mk & 5) == 5:
                             isfailed = failed in (True, 'open')
                             return (not isfailed) if n.get('op') == '==' else isfailed
+                        if mk is not None and cv is not None and int(cv) != 0 and (int(cv) & 5) and failed is False:
+                            return n.get('op') != '=='      # no error bit is set: the word is not equal to a value with error bits
             # a local flag compared with null / used as a condition
             if n['k'] == 'BinaryOperator' and n['op'] in ('==', '!='):
                 for x, y in ((n['ch'][0], n['ch'][1]), (n['ch'][1], n['ch'][0])):
@@ -543,6 +545,12 @@ def run(prog, tier):
                 from paths import local_init as _li5
                 ini_ = _li5(w, m_['decl']['id'])
                 dep_ = ini_ is not None and any(u in set(w.descendants(ini_)) | {ini_} for u in uses)
+                # the state word itself (`state = f.rdstate()`): which error bits it holds after a failure is genuinely open (badbit, failbit or both),
+                # so both outcomes of a test of single bits are feasible - not an untracked flag
+                is_state_word = ini_ is not None and not assigned_ and any(u in set(w.descendants(ini_)) | {ini_} and uses[u] == ('member', 'rdstate') for u in uses) and \
+                    w.nodes[w.strip(ini_, 'all')]['k'] == 'CXXMemberCallExpr'
+                if is_state_word:
+                    continue
                 if assigned_ or dep_:
                     untracked_flags.add(m_['decl'].get('name'))
     # exploration
